@@ -171,6 +171,18 @@ def ev(body, e, leaf, depth=0):
         path = e[1]
         if re.search(r'::abs$', path) and e[2]:
             return abs(rec(e[2][0]))
+        m = re.search(r'ops::(?:arith::)?(Add|Sub|Mul|Div|Rem)(?:<[^>]*>)?>::(add|sub|mul|div|rem)$', path)
+        if m and len(e[2]) == 2:
+            return ev(body, ('binop', m.group(1), e[2][0], e[2][1]), leaf, depth + 1)
+        if re.search(r'ops::(?:arith::)?Neg>::neg$', path) and e[2]:
+            return -rec(e[2][0])
+        if re.search(r'f64>?::copysign$|::copysign$', path) and len(e[2]) == 2:
+            import math
+            return math.copysign(rec(e[2][0]), rec(e[2][1]))
+        if re.search(r'f64>?::(round|trunc|floor|ceil)$', path) and e[2]:
+            import math
+            v = rec(e[2][0])
+            return float({'round': lambda x: math.floor(abs(x) + 0.5) * (1 if x >= 0 else -1), 'trunc': math.trunc, 'floor': math.floor, 'ceil': math.ceil}[path.rsplit('::', 1)[1]](v))
         if re.search(r'(Into<.*>>::into|From<.*>>::from|::clone|Deref>::deref|::borrow|::to_owned)$', path) and e[2]:
             return rec(e[2][0])
         if re.search(r'Option::<.*>::unwrap$|Result::<.*>::unwrap$', path) and e[2]:
